@@ -7,6 +7,17 @@ use core::pin::pin;
 use core::task::{Context, Poll, Waker};
 use nexrad_data::verif_hooks::search;
 
+/// A future that is ready at its first poll and owns no error value (its drop glue is trivial).
+/// With core::future::Ready<Result<_, Error>> the coroutine's drop glue reaches io::Error's destructor
+/// (DESIGN.md A.2b); with this one symbolic execution of an N = 1 shape takes 42 s instead of > 10 min.
+struct Imm(Option<u32>);
+impl Future for Imm {
+    type Output = nexrad_data::result::Result<Option<u32>>;
+    fn poll(self: core::pin::Pin<&mut Self>, _cx: &mut Context<'_>) -> Poll<Self::Output> {
+        Poll::Ready(Ok(self.0))
+    }
+}
+
 fn block_on<F: Future>(f: F) -> F::Output {
     let mut f = pin!(f);
     let mut cx = Context::from_waker(Waker::noop());
@@ -59,7 +70,7 @@ fn run_shape<const N: usize>(p: usize, c: usize) {
     let r = block_on(search(N, u32::MAX, |i| {
         calls.set(calls.get() + 1);
         assert!(i < N, "C15: directory index out of range requested");
-        core::future::ready(Ok(table[i]))
+        Imm(table[i])
     }));
     let r = match r {
         Ok(r) => r,
